@@ -364,14 +364,18 @@ def _tables(np, N):
     return [(idx >> i) & 1 for i in range(N)]
 
 def _poly_table(np, terms, cols, scale, size):
-    tot = np.zeros(size, dtype=np.int64)
-    for k, v in terms:
-        c = Fraction(v) * scale
-        assert c.denominator == 1 and abs(c.numerator) < (1 << 40), (k, v, scale)
-        t = np.full(size, c.numerator, dtype=np.int64)
+    cs = [Fraction(v) * scale for _, v in terms]
+    assert all(c.denominator == 1 for c in cs), (terms, scale)
+    # exact integer tables: int64 when everything is small, Python integers (dtype=object) otherwise, e.g. when a
+    # coefficient of the result is a float image of a non-dyadic rational (huge common denominator)
+    small = sum(abs(c.numerator) for c in cs) < (1 << 60)
+    dt = np.int64 if small else object
+    tot = np.zeros(size, dtype=dt)
+    for (k, _), c in zip(terms, cs):
+        t = np.full(size, c.numerator, dtype=dt)
         for i in k:
-            t = t * cols[i]
-        tot += t
+            t = t * (cols[i] if small else cols[i].astype(object))
+        tot = tot + t
     return tot
 
 def requested_degree(case, M):
